@@ -61,19 +61,32 @@ def audit(prop):
     forbidden = [w for w in ['sorry', 'admit', 'native_decide', 'bv_decide', 'implemented_by', 'unsafe ', 'maxHeartbeats 0']
                  if w in code]
     forbidden += re.findall(r'^axiom\s+\S+', code, re.M)
-    ns = re.search(r'^namespace\s+(\S+)', src, re.M)
-    prefix = (ns.group(1) + '.') if ns else ''
+    # the namespace each theorem is declared in
+    full_names = {}
+    stack = []
+    for line in src.split('\n'):
+        m = re.match(r'^namespace\s+(\S+)', line)
+        if m:
+            stack.append(m.group(1))
+            continue
+        m = re.match(r'^end\s+(\S+)', line)
+        if m and stack and stack[-1] == m.group(1):
+            stack.pop()
+            continue
+        m = re.match(r'^theorem\s+(' + prop + r'_[A-Za-z0-9_\']+)', line)
+        if m:
+            full_names[m.group(1)] = '.'.join(stack + [m.group(1)])
     audit_file = os.path.join(LEAN, 'FancyModel', 'Proofs', '_audit_' + prop + '.lean')
     with open(audit_file, 'w') as f:
         f.write('import FancyModel.Proofs.%s\n' % prop)
         for n in names:
-            f.write('#print axioms %s%s\n' % (prefix, n))
+            f.write('#print axioms %s\n' % full_names.get(n, n))
     r = sh(['lake', 'env', 'lean', audit_file], cwd=LEAN, check=False)
     os.remove(audit_file)
     out = r.stdout
     res = []
     for n in names:
-        full = prefix + n
+        full = full_names.get(n, n)
         m = re.search(r"'" + re.escape(full) + r"' (does not depend on any axioms|depends on axioms: \[([^\]]*)\])", out, re.S)
         if not m:
             res.append((n, None, False))
